@@ -27,7 +27,7 @@ RULE = ('Histories of 1..5 operations on one FitInfo: keep(sel) with the six sel
 ASSUMPTIONS = ['FitInfo.sort order (numpy argsort, NaN last) is taken as the ranking', 'selector thresholds equal to an attained value are not judged',
                "('A', v) is used with an arbitrary v, as in the documentation"]
 PROBES = ['tie_in_chi2', 'nan_present', 'inf_present', 'zero_length_result', 'kept_zero', 'kept_all', 'kept_some', 'equal_threshold_skipped',
-          'hop_pickle', 'hop_file', 'hop_consumer', 'family_real', 'composition_checked', 'n_beyond_total', 'flags_edited_in_place', 'rejected_flag_assignment', 'hop_file_pair', 'long_ranking', 'long_relative_cut_inside', 'hop_plot_several_sources', 'plot_threshold_tuned_on_a_source', 'sibling_result_selected_in_between']
+          'hop_pickle', 'hop_file', 'hop_consumer', 'family_real', 'composition_checked', 'n_beyond_total', 'flags_edited_in_place', 'rejected_flag_assignment', 'hop_file_pair', 'long_ranking', 'long_relative_cut_inside', 'hop_plot_several_sources', 'plot_threshold_tuned_on_a_source', 'sibling_result_selected_in_between', 'one_selector_list_updated_in_place']
 
 
 def budgets(tier):
@@ -99,6 +99,7 @@ def generate(rng, tier, idx):
             st['channel'] = rng.choice(['path', 'list'])
         steps.append(st)
     sc['steps'] = steps
+    sc['sel_reuse'] = rng.random() < 0.3
     if not real and rng.random() < 0.004:
         # a ranking far longer than any internal block size a reimplementation might use; one relative selector is
         # guaranteed whose cut falls well inside the vector
@@ -227,6 +228,7 @@ def _execute(sc, sim, out):
         out.violate('not-ranked', 'initial result is not in non-decreasing chi^2 order')   # C04's clause; stops the history
         return
     k = n0                       # reference: number of rows still kept
+    shared_sel = ['A', 0]
     counts_on_original = []
     trace = [sc['family'], n0, nd, 'nan' if np.any(np.isnan(R['chi2'])) else '', 'inf' if np.any(np.isinf(R['chi2'])) else '']
     path = sim.path('hop.fitinfo')
@@ -299,7 +301,13 @@ def _execute(sc, sim, out):
                 counts_on_original.append(on_orig)
             if sel[0] == 'N' and sel[1] > k:
                 out.probe('n_beyond_total')
-            r = pipe.call(info.keep, pipe.sel_arg(sel))
+            if sc.get('sel_reuse'):
+                # a threshold scan: ONE list object, updated in place between the calls
+                shared_sel[:] = [sel[0], sel[1]]
+                out.probe('one_selector_list_updated_in_place')
+                r = pipe.call(info.keep, shared_sel)
+            else:
+                r = pipe.call(info.keep, pipe.sel_arg(sel))
             if r[0] != 'ok':
                 out.violate('selection', 'keep%r raised %s: %s' % (sel, pipe.exc_name(r), r[1]), key='keep/%s' % pipe.exc_name(r))
                 break
@@ -471,6 +479,8 @@ def _plot_consumer(sc, st, sel, info, R, k, nd, path, out, ft):
 
 
 def lowerings(sc, viol=None):
+    if sc.get('sel_reuse'):
+        yield dict(sc, sel_reuse=False)
     if sc['family'] == 'a':
         if sc.get('long'):
             yield {k: v for k, v in sc.items() if k != 'long'}
